@@ -82,6 +82,13 @@ func (r *ResponseFilterWriter) WriteHeader(code int) {
 			break
 		}
 	}
+	// A partial response (206, or the 416 that carries a Content-Range)
+	// speaks about byte positions of the representation the handler
+	// selected; compressing it would relabel those bytes as a range of
+	// another representation.
+	if code == http.StatusPartialContent || r.Header().Get("Content-Range") != "" {
+		r.shouldCompress = false
+	}
 
 	if r.shouldCompress {
 		// replace discard writer with ResponseWriter
